@@ -250,6 +250,10 @@ func (maps *trackedMaps) processUnfiltered(ctx context.Context, ef *Filter, filt
 						if f.Kind() == reflect.Ptr {
 							f = f.Elem()
 						}
+						if !f.IsValid() {
+							// a nil pointer (or nil interface) in the slice: nothing to filter
+							continue
+						}
 						if f.Type() == reflect.TypeOf(structpb.Struct{}) {
 							f = f.FieldByName("Fields")
 						}
